@@ -51,6 +51,8 @@ class Session:
         self.stack = []                 # context managers entered
         self.nfit = 0
         self.pending_exc = None         # the interruption that is propagating out of the enclosing with-blocks
+        self.dflt_every = []            # `every` of the checkpoint defaults in force (contexts entered; primed by resume_from_file)
+        self.last_every = 1
 
     def path(self, p):
         return os.path.join(self.tmp, f"f{p}.h5")
@@ -76,6 +78,8 @@ class Session:
                     kw.update(sampler="smc", sampler_kwargs={"n_steps": 1}, adaptive=False, n_steps=4)
                 if p is not None:
                     kw["checkpoint_path"] = self.path(p)
+                # the cadence in force: the context's when the path comes from the context, the call's default otherwise
+                self.last_every = self.dflt_every[-1] if (p is None and self.dflt_every) else 1
                 self.target.fault_at = None
                 if kind == "smc" and not completed:
                     # interrupted after `nck` checkpoints: initial likelihood call + 3 per iteration (kernel 1+1, re-evaluation)
@@ -97,12 +101,17 @@ class Session:
                     finally:
                         self.target.fault_at = None
             elif k == "enter":
-                cm = a.auto_checkpoint(self.path(op[1]), every=1, save_config=op[2])
+                # cadences a user writes: every iteration, only the final checkpoint (0), every second iteration
+                every = (1, 0, 2, 1)[(self.seed + len(self.stack) + len(self.dflt_every)) % 4]
+                cm = a.auto_checkpoint(self.path(op[1]), every=every, save_config=op[2])
                 cm.__enter__()
                 self.stack.append((cm, a))
+                self.dflt_every.append(every)
             elif k == "exit":
                 if self.stack:
                     cm, inst = self.stack.pop()
+                    if self.dflt_every:
+                        self.dflt_every.pop()
                     e = self.pending_exc
                     if e is not None:
                         # the with-block is left BY the interruption (the usual way an interrupted run leaves its context)
@@ -119,6 +128,7 @@ class Session:
 
                 self.a = Aspire.resume_from_file(self.path(op[1]), log_likelihood=self.target.log_likelihood, log_prior=self.target.log_prior)
                 self.stack = []      # a new instance: contexts of the old one no longer apply
+                self.dflt_every = [1]  # ... and it is primed with checkpoint defaults of its own (every=1)
             return False
         except smcrun.FAULTS:
             return False
@@ -218,6 +228,11 @@ def check_sequences(chk, seqs):
                 if op[0] == "sample" and not op[3] and not raised and sess.fault_fired is not True:
                     op = ("sample", op[1], op[2], True, 0)
                     chk.count("interruption_never_fired")
+                elif op[0] == "sample" and not op[3] and sess.last_every != 1:
+                    # interrupted after op[4] ITERATIONS; the number of checkpoints written before that depends on the cadence in force
+                    e_ = sess.last_every
+                    op = ("sample", op[1], op[2], False, 0 if e_ == 0 else op[4] // e_)
+                    chk.count(f"cadence_in_force:{e_}")
                 eff.append(op)
                 obs.append([sess.observe(p) for p in (1, 2)])
             runs.append((eff, obs))
